@@ -186,6 +186,42 @@ def aggScores (agg : Agg) : List Score → Option Score
         | .min => some (Score.min a x)
         | .max => some (Score.max a x)) (some s)
 
+/-! ### `sum()` of SQLite ≥ 3.43: Kahan–Babuška–Neumaier compensated summation
+
+`sumStep` keeps a running sum `rSum` and a running compensation `rErr`; for each value `r`:
+`t = rSum + r; rErr += (|rSum| > |r|) ? (rSum - t) + r : (r - t) + rSum; rSum = t`, and `sumFinalize`
+answers `rSum + rErr` — every operation an IEEE double operation (`round53`). With an infinity among the
+values `rErr` becomes NaN and the plain `rSum` is the answer. For one or two values this is the correctly
+rounded sum (what `aggScores` computes); for three or more it is NOT the left-to-right float sum
+(`0.1 + 0.7 - 0.3` gives `0.5`, not `0.49999999999999994`). -/
+
+def dyAbs (x : Dyadic) : Dyadic := if x < 0 then -x else x
+
+def kbnStep (st : Dyadic × Dyadic) (r : Dyadic) : Dyadic × Dyadic :=
+  let s := st.1
+  let t := round53 (s + r)
+  let c := if dyAbs s > dyAbs r then round53 (round53 (s - t) + r) else round53 (round53 (r - t) + s)
+  (t, round53 (st.2 + c))
+
+def finiteScores : List Score → Option (List Dyadic)
+  | [] => some []
+  | .fin d :: r => (finiteScores r).map (d :: ·)
+  | _ :: _ => none
+
+/-- `sum(score)` over a group as SQLite computes it -/
+def kbnScores (l : List Score) : Option Score :=
+  match finiteScores l with
+  | none => aggScores .sum l                    -- an infinity: the compensation is NaN, `rSum` is returned
+  | some [] => none
+  | some ds =>
+    let st := ds.foldl kbnStep (0, 0)
+    some (.fin (round53 (st.1 + st.2)))
+
+/-- the aggregate of one group: the compensated sum where it can differ from the plain one (three or more
+keys), otherwise `aggScores` (for which order-independence is proved) -/
+def aggGroup (ks : List Bytes) (agg : Agg) (l : List Score) : Option Score :=
+  if agg = .sum ∧ (dedup ks).length ≥ 3 then kbnScores l else aggScores agg l
+
 /-- `group by elem [having count(distinct kid) = n] order by agg(score), elem` -/
 def zCombine (db : DB) (ks : List Bytes) (agg : Agg) (inter : Bool) (now : Int) :
     List (Bytes × Option Score) :=
@@ -195,7 +231,7 @@ def zCombine (db : DB) (ks : List Bytes) (agg : Agg) (inter : Bool) (now : Int) 
   let groups := elems.filterMap (fun e =>
     let g := rows.filter (fun r => r.elem == e)
     if inter && !((g.length : Int) == (dedup ks).length) then none      -- `countDistinct(keys)`
-    else some (e, aggScores agg (g.map (·.score))))
+    else some (e, aggGroup ks agg (g.map (·.score))))
   sortBy (fun a b => match a.2, b.2 with
     | some x, some y => Score.lt x y || (x == y && bytesLt a.1 b.1)
     | none, some _ => true           -- NULL sorts first
